@@ -168,19 +168,21 @@ func checkSameCopies(p *Prog, r *Report, dec *ssa.Function) {
 	rfl := anchorFunc(p, r, pkgReceiver, "Transfer", "ReceiveFileList")
 	if rfl != nil {
 		ok := false
-		allCalls(rfl, func(c ssa.CallInstruction) {
-			if c.Common().StaticCallee() != dec {
-				return
-			}
-			// last argument is a phi whose loop edge is the previous call's result
-			if phi, isPhi := c.Common().Args[2].(*ssa.Phi); isPhi {
-				for _, e := range phi.Edges {
-					if ec, idx := extractOf(e); ec != nil && idx == 0 && ec.Common().StaticCallee() == dec {
-						ok = true
+		for _, u := range p.ModGraph().unitFuncs(rfl) {
+			allCalls(u, func(c ssa.CallInstruction) {
+				if c.Common().StaticCallee() != dec {
+					return
+				}
+				// last argument is a phi whose loop edge is the previous call's result
+				if phi, isPhi := c.Common().Args[2].(*ssa.Phi); isPhi {
+					for _, e := range phi.Edges {
+						if ec, idx := extractOf(e); ec != nil && idx == 0 && ec.Common().StaticCallee() == dec {
+							ok = true
+						}
 					}
 				}
-			}
-		})
+			})
+		}
 		r.Cond(ok, rule, "ReceiveFileList advances the previous entry", p.Pos(rfl.Pos()), "the `last` argument must be the entry decoded in the previous iteration")
 	}
 }
@@ -323,7 +325,9 @@ func checkLongintSiblings(p *Prog, r *Report) {
 				return "i32(v)"
 			}
 			return "i32(-1) i64(v)"
-		}, func(got, want string) bool { return strings.HasPrefix(want, got) && got != "" && got != want && want == "i32(-1) i64(v)" && got == "i32(-1)" })
+		}, func(got, want string) bool {
+			return strings.HasPrefix(want, got) && got != "" && got != want && want == "i32(-1) i64(v)" && got == "i32(-1)"
+		})
 	}
 	// ReadInt64
 	if fn := anchorFunc(p, r, pkgWire, "Conn", "ReadInt64"); fn != nil {
